@@ -15,12 +15,14 @@ def configs(tier):
     if tier == "thorough":
         feats = feats | {"burst"}
     props = {"cal": {"displayname": ["d1"]}}
+    # R1/R2: one object in two versions whose repeated properties (ATTENDEE, EXDATE, CATEGORIES) overlap
+    rb = {"cal": ["X", "R1", "R2", "BAD"], "ab": ["K", "L"], "c2": ["X", "Z"]}
     out = [
         Config(front="wsgi", backend="tree", prefix="/", features=feats | {"burst"}, props=props, oracles={"C01"}),
         Config(front="aio", backend="tree", prefix="/dav/", features=feats, props=props, oracles={"C01"}),
-        Config(front="wsgi", backend="bare", prefix="/dav/", features=feats, props=props, oracles={"C01"}),
+        Config(front="wsgi", backend="bare", prefix="/dav/", features=feats, props=props, bodies=rb, oracles={"C01"}),
     ]
-    out.append(e1common.StoreCfg(kinds=("tree", "bare", "mem", "vdir"), oracles={"C01"}, features={"restart", "differential"} | ({"etagargs"} if tier == "thorough" else set())))
+    out.append(e1common.StoreCfg(kinds=("tree", "bare", "mem", "vdir"), bodies=("X", "X2", "Z", "BAD", "R1", "R2"), oracles={"C01"}, features={"restart", "differential"} | ({"etagargs"} if tier == "thorough" else set())))
     if tier == "thorough":
         out += [
             Config(front="aio", backend="bare", prefix="/", features=feats, props=props, oracles={"C01"}),
